@@ -30,7 +30,29 @@ theorem refusal_noninterference {σ : Type} (H : Bytes → Bytes) (cfg : Config)
     (observe H cfg P s req).calls = (observe H cfg P' s req).calls ∧
     (observe H cfg P s req).state = (observe H cfg P' s req).state ∧
     (observe H cfg P s req).debug = (observe H cfg P' s req).debug := by
-  sorry
+  obtain ⟨h1, h2, h3⟩ := hP
+  rcases validate_split H cfg req with ⟨o, _, h⟩ | ⟨a, fp, sts, ha, hfp, hpre, hsts, h⟩
+  · simp only [observe, (h σ P s).1, (h σ P' s).1, (h σ P s).2, (h σ P' s).2, and_self]
+  · have hv := (h σ P s).1
+    have hv' := (h σ P' s).1
+    rw [hv] at hr
+    rw [hv'] at hr'
+    simp only [observe, hv, hv', (h σ P s).2, (h σ P' s).2, finish]
+    simp only [finish] at hr hr'
+    obtain ⟨e1, e2, e3, e4⟩ := getSigningKey_sameUpToKey P P' s a cfg.region cfg.service h1 h2 h3
+    refine ⟨?_, e1, e2, e3⟩
+    rcases e4 with ⟨k, hk, hk'⟩ | ⟨r, r', hk, hk', _⟩
+    · rw [hk, hk']
+    · rw [hk] at hr ⊢
+      rw [hk'] at hr' ⊢
+      simp only [sigOut] at hr hr' ⊢
+      by_cases hs : a.signature = hexLower (hmac H r.key sts)
+      · rw [if_pos hs] at hr
+        exact absurd rfl (hr _)
+      · by_cases hs' : a.signature = hexLower (hmac H r'.key sts)
+        · rw [if_pos hs'] at hr'
+          exact absurd rfl (hr' _)
+        · rw [if_neg hs, if_neg hs']
 
 /-- Calls, provider state and debug records never depend on the key, accepted or not. -/
 theorem calls_and_logs_independent_of_key {σ : Type} (H : Bytes → Bytes) (cfg : Config) (P P' : Provider σ) (s : σ)
@@ -38,7 +60,12 @@ theorem calls_and_logs_independent_of_key {σ : Type} (H : Bytes → Bytes) (cfg
     (validate H cfg P s req).calls = (validate H cfg P' s req).calls ∧
     (validate H cfg P s req).state = (validate H cfg P' s req).state ∧
     validateDebug H cfg P s req = validateDebug H cfg P' s req := by
-  sorry
+  obtain ⟨h1, h2, h3⟩ := hP
+  rcases validate_split H cfg req with ⟨o, _, h⟩ | ⟨a, fp, sts, ha, hfp, hpre, hsts, h⟩
+  · simp only [(h σ P s).1, (h σ P' s).1, (h σ P s).2, (h σ P' s).2, and_self]
+  · simp only [(h σ P s).1, (h σ P' s).1, (h σ P s).2, (h σ P' s).2, finish]
+    obtain ⟨e1, e2, e3, _⟩ := getSigningKey_sameUpToKey P P' s a cfg.region cfg.service h1 h2 h3
+    exact ⟨e1, e2, e3⟩
 
 /-- A wrong signature is refused with the one fixed kind whatever the key and whatever the presented
 signature: the refusal does not even reveal *which* wrong signature was closer. -/
@@ -49,7 +76,28 @@ theorem mismatch_kind_fixed {σ : Type} (H : Bytes → Bytes) (cfg : Config) (P 
     (hk : (P.call (P.ready s).2 (providerReqOf a cfg.region cfg.service)).1 = .ok resp)
     (hs : stringToSign a = .ok sts) (hne : a.signature ≠ hexLower (hmac H resp.key sts)) :
     (validate H cfg P s req).out = .err .SignatureDoesNotMatch ∧ validateDebug H cfg P s req = [] := by
-  sorry
+  obtain ⟨fp, _, _, hv⟩ := validate_of_authOf_ok H cfg P s req a ha
+  have hready : P.ready s = (none, (P.ready s).2) := by
+    rcases hq : P.ready s with ⟨x, y⟩
+    rw [hq] at hrd
+    simp only at hrd
+    rw [hrd]
+  have hcall : P.call (P.ready s).2 (providerReqOf a cfg.region cfg.service) =
+      (.ok resp, (P.call (P.ready s).2 (providerReqOf a cfg.region cfg.service)).2) := by
+    rcases hq : P.call (P.ready s).2 (providerReqOf a cfg.region cfg.service) with ⟨x, y⟩
+    rw [hq] at hk
+    simp only at hk
+    rw [hk]
+  constructor
+  · rw [hv, validateSignature_of_prevalidate_ok H P s a _ _ _ sts hp hs,
+      getSigningKey_call_ok P s _ _ a _ _ resp hready hcall]
+    simp only [finish, if_neg hne, Outcome.map_err]
+  · rw [validateDebug_of_authOf_ok H cfg P s req a sts ha hp hs]
+    rcases getSigningKey_debug_cases P s a cfg.region cfg.service with
+      ⟨e, he, _⟩ | ⟨_, e, he, _⟩ | ⟨_, _, _, _, hd⟩
+    · rw [hrd] at he; cases he
+    · rw [hk] at he; cases he
+    · exact hd
 
 /-- Debug-level records exist only for provider failures and carry only the provider's own error. -/
 theorem debug_only_provider_errors {σ : Type} (H : Bytes → Bytes) (cfg : Config) (P : Provider σ) (s : σ)
@@ -57,7 +105,25 @@ theorem debug_only_provider_errors {σ : Type} (H : Bytes → Bytes) (cfg : Conf
     rec.site = "auth.rs:267" ∧
     ((P.ready s).1 = some rec.err ∨ ∃ pr, (P.call (P.ready s).2 pr).1 = .error rec.err) ∧
     (validate H cfg P s req).out = .err rec.err.toKind := by
-  sorry
+  rcases validate_split H cfg req with ⟨o, _, hh⟩ | ⟨a, fp, sts, ha, hfp, hpre, hsts, hh⟩
+  · rw [(hh σ P s).2] at h
+    cases h
+  · rw [(hh σ P s).2] at h
+    rw [(hh σ P s).1]
+    rcases getSigningKey_debug_cases P s a cfg.region cfg.service with
+      ⟨e, he, hg, hd⟩ | ⟨_, e, he, hg, hd⟩ | ⟨_, _, _, _, hd⟩
+    · rw [hd] at h
+      have := List.mem_singleton.1 h
+      subst this
+      rw [hg]
+      exact ⟨rfl, .inl he, rfl⟩
+    · rw [hd] at h
+      have := List.mem_singleton.1 h
+      subst this
+      rw [hg]
+      exact ⟨rfl, .inr ⟨_, he⟩, rfl⟩
+    · rw [hd] at h
+      cases h
 
 end SigV4.C17
 
